@@ -99,6 +99,9 @@ class ManifestContext:
             timing = DashTiming(self.now, self.timing_ref, options)
             self.mediaDuration = self.timing_ref.media_duration_timedelta().total_seconds()
         self.has_timing = multi_period is not None or timing is not None
+        if not self.has_timing:
+            # nothing can be listed for a stream without a timing reference
+            return
 
         if multi_period:
             if options.mode == 'live':
@@ -520,7 +523,7 @@ class ManifestContext:
         clk_cgi_params = options.generate_cgi_parameters(
             use=OptionUsage.TIME, exclude=exclude)
 
-        if options.videoErrors:
+        if options.videoErrors and video.representations:
             times = self.calculate_injected_error_segments(
                 options.videoErrors,
                 self.now,
@@ -539,7 +542,7 @@ class ManifestContext:
                     audio[0].representations[0])
                 aud_cgi_params['aerr'] = times
 
-        if options.videoCorruption:
+        if options.videoCorruption and video.representations:
             errs = [(None, tc) for tc in options.videoCorruption]
             segs = self.calculate_injected_error_segments(
                 errs,
